@@ -257,7 +257,7 @@ var initStd = map[string]bool{
 	"encoding/hex": true, "encoding/base64": true, "errors": true, "cmp": true, "maps": true, "io": true,
 	"gopkg.in/src-d/go-errors.v1": true, "container/list": true, "hash/crc32": false,
 	"internal/strconv": true, "internal/stringslite": true, "internal/byteorder": true, "internal/itoa": true,
-	"github.com/cockroachdb/apd/v3": true, "context": true,
+	"github.com/cockroachdb/apd/v3": true, "context": true, "net/netip": true,
 }
 
 func (w *World) wantInit(p *ssa.Package) bool {
@@ -280,7 +280,7 @@ var denyPrefixes = []string{
 }
 
 func (w *World) allowed(fn *ssa.Function) bool {
-	if allowFuncs[fn.String()] {
+	if allowFuncs[fn.String()] || strings.HasPrefix(fn.String(), "(net.IP).") {
 		return true
 	}
 	if fn.Pkg == nil {
@@ -296,12 +296,16 @@ func (w *World) allowed(fn *ssa.Function) bool {
 	return w.allowedPath(fn.Pkg.Pkg.Path())
 }
 
-var allowFuncs = map[string]bool{"(*fmt.wrapError).Error": true, "(*fmt.wrapError).Unwrap": true}
+var allowFuncs = map[string]bool{"(*fmt.wrapError).Error": true, "(*fmt.wrapError).Unwrap": true,
+	// pure address parsing/formatting of package net (no I/O): a thin layer over net/netip
+	"net.ParseIP": true, "net.parseIP": true, "net.IPv4": true, "(net.IP).To4": true, "(net.IP).To16": true, "(net.IP).String": true,
+	"(net.IP).Equal": true, "net.ubtoa": true, "net.hexString": true, "net.isZeros": true, "net.allFF": true,
+}
 
 func (w *World) allowedPath(path string) bool {
 	switch path {
 	case "sync/atomic", "internal/stringslite", "internal/bytealg", "internal/byteorder", "internal/itoa", "internal/godebug",
-		"internal/race", "internal/goarch", "internal/cpu", "internal/abi", "internal/unsafeheader":
+		"internal/race", "internal/goarch", "internal/cpu", "internal/abi", "internal/unsafeheader", "net/netip":
 		return true
 	}
 	for _, d := range denyPrefixes {
